@@ -46,6 +46,7 @@ RULES = {
     "T2": rules_types.rule_T2,
     "A2": rules_lemma.rule_A2,
     "G3c": rules_slice.rule_G3c,
+    "Q1": rules_guard.rule_Q1,
 }
 
 SELFTESTS = {"T1": rules_types.selftest_T1}
@@ -94,7 +95,7 @@ PROPS = {
     "C05": {
         "id": "C05",
         "title": "No call corrupts memory or hangs: misuse is reported by exception",
-        "rules": ["G1", "G2", "G3", "G5", "G6", "E1", "A1", "Z1", "Z2", "D2", "G7", "N4", "A2"],
+        "rules": ["G1", "G2", "G3", "G5", "G6", "E1", "A1", "Z1", "Z2", "D2", "G7", "N4", "A2", "Q1"],
         "clause": "guard completeness (mechanisms 1-3 of the anchors): every plan solve() checks the input length with a live "
                   "check before mixing it with plan tables; every foreign-bound subscript and caller-supplied index in a public "
                   "function is dominated by a live relating guard; slices are range-checked at creation and count-checked at "
